@@ -3,6 +3,7 @@ package w14
 
 import (
 	"fmt"
+	"math/big"
 	"sort"
 	"strconv"
 	"strings"
@@ -192,6 +193,112 @@ func Enum(j *job.Job, s *job.Sink) {
 	for k, o := range opts {
 		if k%j.Shards == j.Shard {
 			rec([]exact.Member{o})
+		}
+	}
+}
+
+// Literal drives explicit values and positions written as literals far outside 64 bits
+// through a module (the Set/SetNext interface takes an int64 and cannot express them): a
+// value outside the int32 range, or a position outside the uint32 range, must be
+// rejected whatever its magnitude - in particular when it would wrap into range.
+func Literal(j *job.Job, s *job.Sink) {
+	two := big.NewInt(2)
+	pow := func(n int64) *big.Int { return new(big.Int).Exp(two, big.NewInt(n), nil) }
+	var lits []*big.Int
+	for _, base := range []*big.Int{pow(31), pow(32), pow(63), pow(64), pow(65), pow(128), new(big.Int).Mul(pow(64), big.NewInt(3))} {
+		for d := int64(-9); d <= 9; d++ {
+			v := new(big.Int).Add(base, big.NewInt(d))
+			lits = append(lits, v, new(big.Int).Neg(v))
+		}
+	}
+	for d := int64(-9); d <= 9; d++ {
+		lits = append(lits, big.NewInt(d))
+	}
+	pres := [][]exact.Member{nil, {{Name: "a"}}, {{Name: "a", Explicit: true, Value: 5}}, {{Name: "a", Explicit: true, Value: -3}}}
+	var idx int64
+	for li, lit := range lits {
+		if li%j.Shards != j.Shard {
+			continue
+		}
+		for _, pre := range pres {
+			for _, post := range []bool{false, true} {
+				for _, bits := range []bool{false, true} {
+					idx++
+					kw, vk := "enum", "value"
+					lo, hi := big.NewInt(-1<<31), big.NewInt(1<<31-1)
+					if bits {
+						kw, vk = "bit", "position"
+						lo, hi = big.NewInt(0), big.NewInt(1<<32-1)
+					}
+					var b strings.Builder
+					fmt.Fprintf(&b, "module m { namespace \"urn:m\"; prefix m; leaf l { type %s {", map[bool]string{false: "enumeration", true: "bits"}[bits])
+					seq := append([]exact.Member{}, pre...)
+					preOK := true
+					for _, m := range pre {
+						if m.Explicit {
+							fmt.Fprintf(&b, " %s %s { %s %d; }", kw, m.Name, vk, m.Value)
+							if bits && m.Value < 0 {
+								preOK = false
+							}
+						} else {
+							fmt.Fprintf(&b, " %s %s;", kw, m.Name)
+						}
+					}
+					fmt.Fprintf(&b, " %s b { %s %s; }", kw, vk, lit.String())
+					if post {
+						fmt.Fprintf(&b, " %s c;", kw)
+					}
+					b.WriteString(" } } }")
+					text := b.String()
+					if idx%64 == 0 {
+						s.Current(idx, map[string]any{"text": text})
+					}
+					s.Count("literal_cases", 1)
+					s.Count("nontrivial", 1)
+					inRange := lit.Cmp(lo) >= 0 && lit.Cmp(hi) <= 0
+					ms := yang.NewModules()
+					if err := ms.Parse(text, "m.yang"); err != nil {
+						s.Violation(idx, j.CaseID(idx), "C14.literal", "parse", err.Error(), map[string]any{"text": text}, nil)
+						continue
+					}
+					errs := ms.Process()
+					if !inRange || !preOK {
+						if len(errs) == 0 {
+							s.Violation(idx, j.CaseID(idx), "C14.literal", "accepts-out-of-range", fmt.Sprintf("%s %s of b is outside %s..%s and was accepted: %s", vk, lit, lo, hi, text), map[string]any{"text": text}, nil)
+						}
+						continue
+					}
+					seq = append(seq, exact.Member{Name: "b", Explicit: true, Value: lit.Int64()})
+					if post {
+						seq = append(seq, exact.Member{Name: "c"})
+					}
+					want, invalidAt, _ := exact.Assign(seq, bits)
+					if invalidAt >= 0 {
+						if len(errs) == 0 {
+							s.Violation(idx, j.CaseID(idx), "C14.literal", "accepts-invalid", text, map[string]any{"text": text}, nil)
+						}
+						continue
+					}
+					if len(errs) > 0 {
+						s.Violation(idx, j.CaseID(idx), "C14.literal", "rejects-valid", fmt.Sprintf("%v: %s", errs[0], text), map[string]any{"text": text}, nil)
+						continue
+					}
+					t := yang.ToEntry(ms.Modules["m"]).Dir["l"].Type
+					et := t.Enum
+					if bits {
+						et = t.Bit
+					}
+					nm := et.NameMap()
+					for i, m := range seq {
+						if nm[m.Name] != want[i] {
+							s.Violation(idx, j.CaseID(idx), "C14.literal", "value", fmt.Sprintf("%s = %d, RFC value %d: %s", m.Name, nm[m.Name], want[i], text), map[string]any{"text": text}, nil)
+						}
+					}
+					if idx%997 == 0 {
+						s.Sample(1, map[string]any{"text": text})
+					}
+				}
+			}
 		}
 	}
 }
